@@ -162,8 +162,11 @@ def mangle_rules(facts, rep):
                 rng["end"][1][2][1] == ("const", "char", 0)
         # separator: the *non-main* separator is replaced by the main one
         frm, to = rep_calls[0][2][1], rep_calls[0][2][2]
-        good = good and any(x[0] == "named" and x[1].endswith("MAIN_SEPARATOR") for x in walk(to)) and \
-            {x[2] for x in walk(frm) if x[0] == "const" and isinstance(x[2], int)} == {47, 92}
+        import os as _os
+        main = ord(_os.sep)
+        good = good and {x[2] for x in walk(to) if x[0] == "const" and isinstance(x[2], int)} == {main} and \
+            {x[2] for x in walk(frm) if x[0] == "const" and isinstance(x[2], int)} <= {47, 92} and \
+            ({47, 92} - {main}) <= {x[2] for x in walk(frm) if x[0] == "const" and isinstance(x[2], int)}
     ok &= rep.check(good, rule, "input", where(f, comps[0][1]["span"]),
                     "components() of: name truncated at the first NUL, with the non-main separator replaced by the main one",
                     "the sanitiser walks %s -- separators must be normalised and the NUL tail cut *before* the component walk" % show(recv)[:200])
